@@ -352,7 +352,7 @@ func c08Judge(w *world.World, rec *world.Rec, uid string, half, two bool, reqs, 
 func init() {
 	register(&Check{
 		ID: "C08", Level: "exploration", Exhaustive: true,
-		Rule:  "complete enumeration of the truth table: session uid {absent, unknown to storage, known} x halfauth mark x 2FA mark {none, twofactor, only the 2FA-setup e-mail authorisation} x requirement bits {0,1,2,3} x refusal mode {404, redirect, 401} x mountPathed (and, for the two refusal modes they can express, the deprecated bool-flag wrappers Middleware/MountedMiddleware against the same table) x Mount {'', '/auth'} x storage outcome {ok, generic error, not-found} x body mode {form, JSON} = 5184 cells, every one executed against the real MountedMiddleware2 behind LoadClientStateMiddleware with hand-made server-side session contents; each cell with the plain target plus 5 seeded targets from a corpus of hostile paths (spaces, non-ASCII, dot segments, double slashes, 300-byte paths, encoded '/', '?', ';') and queries ('&', '=', '%23', '+', repeated keys, bad escapes, 800 bytes, an own redir=). In every other cell the middleware is constructed while Paths.Mount still holds a placeholder (wiring order); the configuration in force when the request is refused counts. Oracle: handler ran <=> known user & requirements & storage ok; otherwise exactly 404 / 401 / redirect to <Mount>/login whose decoded redir equals path[+mount]?rawquery / 500 on storage error. exhaustive=true refers to the cell table; targets are sampled. Plus 192 cells in which the identity comes from the remember-me cookie in the very request (no stored session; session store answering an empty state object or a nil state): half-authenticated by definition. Two further units fire 8 anonymous clients x 150 (thorough: 1500) requests concurrently at ONE redirect-mode middleware instance behind a real server: each must be redirected with its own target. Every third cell nests the instance under test inside an outer RequireNone instance (the handler runs iff both admit; whoever refuses first answers). Cells whose session names a vanished account also run behind a tolerant LoadCurrentUser pre-loader with a storer that answers a miss with a nil *User inside a non-nil interface. After the table, the refused visitor of a redirect-mode middleware logs in with the carried target (plain paths in Latin, Cyrillic, Greek and CJK letters, with and without a query) and must be sent exactly there. distinct_nontrivial = distinct (cell → outcome) pairs.",
+		Rule:  "complete enumeration of the truth table: session uid {absent, unknown to storage, known} x halfauth mark x 2FA mark {none, twofactor, only the 2FA-setup e-mail authorisation} x requirement bits {0,1,2,3} x refusal mode {404, redirect, 401} x mountPathed (and, for the two refusal modes they can express, the deprecated bool-flag wrappers Middleware/MountedMiddleware against the same table) x Mount {'', '/auth'} x storage outcome {ok, generic error, not-found} x body mode {form, JSON} = 5184 cells, every one executed against the real MountedMiddleware2 behind LoadClientStateMiddleware with hand-made server-side session contents; each cell with the plain target plus 5 seeded targets from a corpus of hostile paths (spaces, non-ASCII, dot segments, double slashes, 300-byte paths, encoded '/', '?', ';') and queries ('&', '=', '%23', '+', repeated keys, bad escapes, 800 bytes, an own redir=). In every other cell the middleware is constructed while Paths.Mount still holds a placeholder (wiring order); the configuration in force when the request is refused counts. Oracle: handler ran <=> known user & requirements & storage ok; otherwise exactly 404 / 401 / redirect to <Mount>/login whose decoded redir equals path[+mount]?rawquery / 500 on storage error. exhaustive=true refers to the cell table; targets are sampled. Plus 192 cells in which the identity comes from the remember-me cookie in the very request (no stored session; session store answering an empty state object or a nil state): half-authenticated by definition. Two further units fire 8 anonymous clients x 150 (thorough: 1500) requests concurrently at ONE redirect-mode middleware instance behind a real server: each must be redirected with its own target. Every third cell nests the instance under test inside an outer RequireNone instance (the handler runs iff both admit; whoever refuses first answers). Cells whose session names a vanished account also run behind a tolerant LoadCurrentUser pre-loader with a storer that answers a miss with a nil *User inside a non-nil interface. After the table, the refused visitor of a redirect-mode middleware logs in with the carried target (plain paths in Latin, Cyrillic, Greek and CJK letters, with and without a query) and must be sent exactly there. In API-mode redirect cells the instance's first refusal happens while the renderer is down (not judged): every later refusal of that instance is still the configured one. distinct_nontrivial = distinct (cell → outcome) pairs.",
 		Units: func(t string) int { return 6 },
 		Run:   c08Unit,
 		Floors: func(t string) map[string]int {
